@@ -233,8 +233,8 @@ func expectJoin(s *Scenario, withMeta bool, j Join) (exp []expTag, zeroBase bool
 
 type caseStats struct {
 	key, ptsNeDts, ptsBack, big, tiny, boundary, older, first32, ext24, aacHdr bool
-	views                                                              int
-	gopJoin, midJoin                                                   bool
+	views                                                                      int
+	gopJoin, midJoin                                                           bool
 }
 
 func (s *Scenario) staticStats() caseStats {
